@@ -463,6 +463,9 @@ func convStructToTarget(source interface{}, target reflect.Type) (interface{}, e
 
 func convMapToTarget(source interface{}, target reflect.Type) (interface{}, error) {
 	st := reflect.TypeOf(source)
+	if st == nil || st.Kind() != reflect.Map {
+		return nil, fmt.Errorf("can't conv type %T to map", source)
+	}
 	if st.Key() != target.Key() {
 		return nil, fmt.Errorf("convMapToTarget error map key type %T != %T", st.Key(), target.Key())
 	}
